@@ -57,6 +57,8 @@ func runC10(c *Ctx) {
 	}
 	c10AfterClose(c)
 	c10RealSockets(c)
+	c10MidHandshake(c)
+	c10BystanderListener(c)
 }
 
 // every protocol at pipe level: after Close, repeated Sends (well-formed for the pattern, and header-less) and Recvs
